@@ -5,7 +5,9 @@ C12 for several caching remedies on the shared plugin cache, observable history 
     configured paths) is justified by an earlier response that SOME remedy A was entitled to store (body within
     A's MaxRecordSizeBytes) for the same method, URL, selected values and `dots` (number of configured paths, up to 0 ≡ 1 when nothing is selected), carrying this
     status/body/headers, and still fresh by A's TTL: `t₀ ≤ t ≤ t₀ + TTL_A`;
-  * every probe: held ≤ tracked ≤ the LARGEST MaxCacheSize of the remedies that have stored so far.
+  * every probe: held ≤ tracked ≤ the LARGEST MaxCacheSize of the remedies that have stored so far, and
+    tracked ≤ max(previous probe's tracked, MaxCacheSize of the remedies that responded since) — each remedy's own
+    limit bounds what IT adds.
 `isolated = true` additionally demands A = B's TTL and record limit (the reading "each remedy sees only what its
 own configuration allows"); the code does not provide it — see `shared_not_isolated_witness`.
 -/
@@ -33,13 +35,24 @@ def maxLimit : List (SRec σ) → Int
     | .resp rm _ _ _ _ _ _ => if rm.cfg.maxBytes ≥ maxLimit older then rm.cfg.maxBytes else maxLimit older
     | _ => maxLimit older
 
+/-- What the tracked size may have grown to since the previous probe: the previous probe's reading, or the size
+    limit of a remedy that responded since (a remedy never adds to the cache beyond ITS OWN configured size: the
+    clause for the configuration that stores).  History most recent first. -/
+def growBound : List (SRec σ) → Int
+  | [] => 0
+  | r :: older =>
+    match r.op, r.out with
+    | .probe, .probed t _ _ _ => t
+    | .resp rm _ _ _ _ _ _, _ => if rm.cfg.maxBytes ≥ growBound older then rm.cfg.maxBytes else growBound older
+    | _, _ => growBound older
+
 def sRecOk (isolated : Bool) (r : SRec σ) (older : List (SRec σ)) : Bool :=
   match r.op, r.out with
   | .req rm m u sel, .early st body tag (.raw ra) => older.any (sJustifies isolated r.t rm m u sel st body tag ra)
   | .req _ _ _ _, .noop => true
   | .req _ _ _ _, _ => false
   | .probe, .probed tracked held _ _ =>
-    decide ((held : Int) ≤ tracked) && decide (tracked ≤ maxLimit older)
+    decide ((held : Int) ≤ tracked) && decide (tracked ≤ maxLimit older) && decide (tracked ≤ growBound older)
   | .probe, _ => false
   | _, _ => true
 
